@@ -292,7 +292,9 @@ fn gen_shadow_scope(rng: &mut Rng, depth: u32, k: &mut u32, src: &mut String) {
     for _ in 0..n {
         let name = *rng.pick(POOL);
         *k += 1;
-        match rng.below(9) {
+        match rng.below(10) {
+            // namespaces that hold nothing (they are not written out, so their names hide nothing in the output)
+            9 => *src += &format!("namespace {} {{ namespace {} {{ }} }}\n", rng.pick(&["a", "b", "N"]), rng.pick(&["a", "b", "f"])),
             0 => *src += &format!("struct S{} {{ int {}; int {}() {{ return {}; }} }};\n", k, name, rng.pick(POOL), k),
             1 => *src += &format!("enum E{} {{ {} }};\n", k, name),
             2 | 3 => *src += &format!("static const int {} = {};\n", name, k),
